@@ -713,8 +713,8 @@ func (e *c17Env) observe(point string, r *verifh.Rand, inject, routes bool) {
 			ro = append(ro, verifh.Pair(rt.route, verifh.B(status != 404)))
 		}
 		e.out.Emit(verifh.Case{ID: e.prefix + point + "-routes",
-			Coq:   verifh.App("CRoutes", verifh.B(e.g.promFlag), verifh.B(e.g.pprofFlag), verifh.List(ro)),
-			Input: map[string]any{"toml": e.g.toml, "point": point, "prometheus": e.g.promFlag, "pprof": e.g.pprofFlag, "options": options},
+			Coq:      verifh.App("CRoutes", verifh.B(e.g.promFlag), verifh.B(e.g.pprofFlag), verifh.List(ro)),
+			Input:    map[string]any{"toml": e.g.toml, "point": point, "prometheus": e.g.promFlag, "pprof": e.g.pprofFlag, "options": options},
 			Observed: robs, Tags: append([]string{"kind:routes", fmt.Sprintf("prometheus:%v", e.g.promFlag), fmt.Sprintf("pprof:%v", e.g.pprofFlag)}, tags...)})
 	}
 }
